@@ -943,3 +943,76 @@ example :
   decide +kernel
 
 end Ural.Props.C05
+
+/-! ## C06 on strings with the option on -/
+
+namespace Ural.Props.C06
+open Ural Ural.Py Ural.UrlParts Ural.Normalize Ural.Fingerprint Ural.NormBridge Ural.Platform Ural.Canonicalize
+open Ural.Props.C05 (NotPlatform fp_pa_transfer fingerprint_pa_of_not_platform)
+
+/-- **letter case is irrelevant with the option on — every pair of strings, facebook / youtube
+urls included**: `fingerprint_url` lower-cases the url before anything else, the branch sees the
+lower-cased string (instance of `fp_case_string`, which holds for every `platform`) -/
+theorem fp_case_string_pa (puny : Str → Str) (trie : SNode Str) (s : Bool) (u v : Str)
+    (h : lower u = lower v) :
+    fingerprintUrlStringSplitPA puny trie s u = fingerprintUrlStringSplitPA puny trie s v ∧
+    fingerprintUrlStringPA puny trie s u = fingerprintUrlStringPA puny trie s v :=
+  fp_case_string puny (platformConcrete puny) trie s u v h
+
+/-- `fp_port_string` with `platform_aware=True`, neither spelling being a facebook / youtube url -/
+theorem fp_port_string_pa (puny : Str → Str) (trie : SNode Str) (s : Bool) (g : UrlG)
+    (p' : Option Str) (po k : Option Nat) (hpo : portVal g.port = some po) (hk : portVal p' = some k)
+    (hs : HostSafe (g.hostname.map (normHost puny fpOpts)))
+    (u u' : Str) (hg : InClassOf true g (lower u))
+    (hg' : InClassOf true { g with port := p' } (lower u'))
+    (hnp : NotPlatform puny true (lower u)) (hnp' : NotPlatform puny true (lower u')) :
+    fingerprintUrlStringPA puny trie s u' = fingerprintUrlStringPA puny trie s u :=
+  fp_pa_transfer puny trie s u u' hnp hnp' (fp_port_string puny trie s g p' po k hpo hk hs u u' hg hg').2
+
+/-- `fp_gl_hl_string` with `platform_aware=True`, neither spelling being a facebook / youtube url -/
+theorem fp_gl_hl_string_pa (puny : Str → Str) (trie : SNode Str) (s : Bool) (g : UrlG)
+    (q q' : Str) (xs ys : List Str) (it : Str) (po : Option Nat) (hpo : portVal g.port = some po)
+    (hq : g.query = some q)
+    (h1 : fixedQ fpOpts q' = join ['&'] (xs ++ it :: ys))
+    (h2 : fixedQ fpOpts q = join ['&'] (xs ++ ys))
+    (hamp : ∀ x ∈ xs ++ it :: ys, '&' ∉ x)
+    (hkey : itemKey it = "gl".toList ∨ itemKey it = "hl".toList)
+    (u u' : Str) (hg : InClassOf true g (lower u))
+    (hg' : InClassOf true { g with query := some q' } (lower u'))
+    (hnp : NotPlatform puny true (lower u)) (hnp' : NotPlatform puny true (lower u')) :
+    fingerprintUrlStringPA puny trie s u' = fingerprintUrlStringPA puny trie s u :=
+  fp_pa_transfer puny trie s u u' hnp hnp'
+    (fp_gl_hl_string puny trie s g q q' xs ys it po hpo hq h1 h2 hamp hkey u u' hg hg').2
+
+/-- `fp_lang_label_string_partial` with `platform_aware=True`, neither spelling being a facebook /
+youtube url -/
+theorem fp_lang_label_string_pa_partial (puny : Str → Str) (trie : SNode Str) (s : Bool) (g : UrlG)
+    (w : Str) (po : Option Nat) (hpo : portVal g.port = some po)
+    (hne : g.host ≠ []) (hpct : '%' ∉ g.host) (hpct' : '%' ∉ w)
+    (hw : LangShape isCountry w)
+    (hsafe : HostSafe (some (preAmp puny (lower g.host))))
+    (hlabels : 1 ≤ countDots (hostnameView (preAmp puny (lower g.host))))
+    (hamp : startsWith (preAmp puny (lower g.host)) ampDash = false)
+    (hsingle : stripLangSubdomainsFromHostname isCountry (hostnameView (preAmp puny (lower g.host))) =
+      hostnameView (preAmp puny (lower g.host)))
+    (hdf : domainFilter (filterHost puny (some (lower g.host))) =
+      domainFilter (filterHost puny (some (lower w ++ '.' :: lower g.host))))
+    (u u' : Str) (hg : InClassOf true g (lower u))
+    (hg' : InClassOf true { g with host := w ++ '.' :: g.host } (lower u'))
+    (hnp : NotPlatform puny true (lower u)) (hnp' : NotPlatform puny true (lower u')) :
+    fingerprintUrlStringPA puny trie s u' = fingerprintUrlStringPA puny trie s u :=
+  fp_pa_transfer puny trie s u u' hnp hnp'
+    (fp_lang_label_string_partial puny trie s g w po hpo hne hpct hpct' hw hsafe hlabels hamp hsingle hdf
+      u u' hg hg').2
+
+/-- `fp_shape_whole` with `platform_aware=True`, `u` not being a facebook / youtube url -/
+theorem fp_shape_whole_pa (puny : Str → Str) (trie : SNode Str) (s : Bool) (g : UrlG) (u : Str)
+    (po : Option Nat) (hpo : portVal g.port = some po)
+    (hs : HostSafe (g.hostname.map (normHost puny fpOpts)))
+    (hg : InClassOf true g (lower u)) (hnp : NotPlatform puny true (lower u)) (r : Split)
+    (h : fingerprintUrlStringSplitPA puny trie s u = .ok r) :
+    r.scheme = [] ∧ ∃ host : Option Str, r.netloc = unsplitNetloc none none host none := by
+  rw [(fingerprint_pa_of_not_platform puny trie s u hnp).2] at h
+  exact fp_shape_whole puny trie s g u po hpo hs hg r h
+
+end Ural.Props.C06
